@@ -97,8 +97,63 @@ fn clearly_not_envelope(t: &StructureTag) -> bool {
     }
 }
 
+thread_local! {
+    static CASE_NO: std::cell::Cell<u64> = std::cell::Cell::new(0);
+    static DRIVE_EVERY: std::cell::Cell<u64> = std::cell::Cell::new(0);
+}
+
+/// Driver level: the same hostile bytes sent to a LIVE connection (real `Framed`, real driver loop) with three
+/// operations pending — a single-result operation, a search mid-stream, a timed single — under whose IDs (1..3)
+/// half of the samples are re-addressed.  Whatever the bytes are: no task panics, nobody hangs, and bytes the
+/// decoder rejects end the connection with an error that every pending operation observes.
+fn drive_case(out: &mut Out, label: &str, bs: &[u8], decoder_says: &str, readdress: Option<u8>) {
+    use crate::scen::{run_script, to_model_events, OpKind, Step};
+    let mut bytes = bs.to_vec();
+    if let Some(id) = readdress {
+        if bytes.len() > 4 && bytes[0] == 0x30 && bytes[1] < 0x80 && bytes[2] == 0x02 && bytes[3] == 0x01 {
+            bytes[4] = id;
+        }
+    }
+    let decoder_says = if readdress.is_some() { decode_outcome(&bytes) } else { decoder_says.to_string() };
+    crate::out::mark(&format!("hostile.drive {}", hex(&bytes)));
+    let sc = vec![
+        Step::Issue { kind: OpKind::Single, tmo_ms: None },
+        Step::Issue { kind: OpKind::Search, tmo_ms: None },
+        Step::Issue { kind: OpKind::Single, tmo_ms: Some(3_600_000) },
+        Step::Settle,
+        Step::Send { id: 2, op: 4, good: false },
+        Step::Settle,
+        Step::Raw { bytes: bytes.clone(), log: String::new() },
+        Step::Settle,
+        Step::Next(1),
+        Step::Settle,
+        Step::CloseMidFrame,
+        Step::Settle,
+    ];
+    let o = run_script(&sc);
+    let ev = to_model_events(&o.trace);
+    let short = if bytes.len() > 80 { format!("{}…({} bytes)", hex(&bytes[..80]), bytes.len()) } else { hex(&bytes) };
+    out.stat(&format!("drive.{}", decoder_says.split(' ').next().unwrap_or("?")));
+    let panicked = o.trace.iter().any(|t| t.starts_with("cli done ") && t.ends_with(" panic"));
+    let ended = o.trace.iter().any(|t| t.starts_with("drv result"));
+    let done = o.trace.iter().filter(|t| t.starts_with("cli done ")).count();
+    out.r(&format!("hostile.drive-no-panic-nobody-hangs {} {}", label, short), !panicked && ended && o.watchdog_stuck.is_empty() && done == 3,
+          &format!("panicked={} driver-ended={} resolved={}/3 stuck={:?} ; {}", panicked, ended, done, o.watchdog_stuck, ev));
+    if decoder_says == "error" {
+        // rejected by the decoder: the driver must have ended with an error BEFORE the peer went away
+        let pos_err = o.trace.iter().position(|t| t == "drv result err");
+        let pos_close = o.trace.iter().position(|t| t == "srv garbage");
+        out.r(&format!("hostile.drive-undecodable-ends-connection {} {}", label, short), pos_err.is_some() && (pos_close.is_none() || pos_err < pos_close), &ev);
+    }
+}
+
 fn case(out: &mut Out, label: &str, bs: &[u8], tree: Option<&StructureTag>) {
     let got = decode_outcome(bs);
+    let every = DRIVE_EVERY.with(|d| d.get());
+    let no = CASE_NO.with(|c| { c.set(c.get() + 1); c.get() });
+    if every > 0 && no % every == 0 && bs.len() <= 4000 {
+        drive_case(out, label, bs, &got, if (no / every) % 2 == 0 { Some(1 + ((no / every / 2) % 3) as u8) } else { None });
+    }
     let h = hex(bs);
     out.case(&h, bs.len() >= 2);
     out.stat(&format!("{}.{}", label, got.split(' ').next().unwrap_or("?")));
@@ -120,6 +175,8 @@ fn case(out: &mut Out, label: &str, bs: &[u8], tree: Option<&StructureTag>) {
 }
 
 pub fn run(thorough: bool, mut rng: Rng, mut out: Out) {
+    // one case in `DRIVE_EVERY` also goes through a live connection (about 400 in quick, 8000 in thorough)
+    DRIVE_EVERY.with(|d| d.set(if thorough { 60 } else { 110 }));
     // corpus: witnesses of F1..F5
     for w in ["3000", "300702010161020a05", "300c02010161070a010004000400a0073005040131010 0", "30"] {
         let w: String = w.chars().filter(|c| *c != ' ').collect();
